@@ -64,7 +64,7 @@ def check(ctx):
     expect_fn(ctx, "C11.4", "substitute-iter", "TypeSubstitutes::iter", "HashMap::iter(P0.substitutes)", "all substitution rules are visited", S)
     expect_fn(ctx, "C11.4", "getter/derives", "Derives::derives", "P0.derives", "derives getter", S)
     expect_fn(ctx, "C11.4", "getter/attributes", "Derives::attributes", "P0.attributes", "attributes getter", S)
-    expect_fn(ctx, "C11.4", "source-path", "validation::path_segments_to_syn_path", "early{Vec::is_empty(P0)=><diverge>}T[#( #0 )::*](Iterator::map(P0,|1|{Result::expect(syn::parse_str(C1_0))}))",
+    expect_fn(ctx, "C11.4", "source-path", "validation::path_segments_to_syn_path", "early{slice::is_empty(P0)=><diverge>}T[#( #0 )::*](Iterator::map(P0,|1|{Result::expect(syn::parse_str(C1_0))}))",
               "the reported source path is rebuilt from exactly the key's segments, in order", S)
     fe = q.fn1(P, "SettingsValidationError::is_empty", S)
     if fe is None:
@@ -72,7 +72,7 @@ def check(ctx):
     else:
         t = show(Norm(fe).term(fe["body"]))
         fields = [f["name"] for f in q.adt_by_name(P, "SettingsValidationError", S)["variants"][0]["fields"]]
-        ok = all("Vec::is_empty(P0.%s)" % f in t for f in fields) and "||" not in t and t.count("&&") == len(fields) - 1
+        ok = all("slice::is_empty(P0.%s)" % f in t for f in fields) and "||" not in t and t.count("&&") == len(fields) - 1
         ctx.expect(ok, "C11.5", "is-empty/all-fields", fe["sp"], "is_empty is the conjunction over all %d lists %s" % (len(fields), fields), "is_empty is `%s`" % t)
     Q = "scale_info::Path{segments:Iterator::collect(Iterator::map(Punctuated::iter(P1.segments),|1|{ToString::to_string(C1_0.ident)}))}"
     expect_fn(ctx, "C11.6", "similar-paths", "validation::similar_type_paths_in_registry",
@@ -82,7 +82,7 @@ def check(ctx):
     fs = [b for b in q.fn_by_suffix(P, "TryIntoSynPath>::syn_path", S) if "scale_info::Path" in b["path"]]
     if len(fs) == 1:
         expect_term(ctx, "C11.6", "similar-paths/conversion", fs[0]["sp"], Norm(fs[0]).term(fs[0]["body"]),
-                    "early{Vec::is_empty(P0.segments)=>return v1::None}Some(T[#( #0 )::*](Iterator::map(P0.segments,|1|{Result::expect(syn::parse_str(C1_0))})))",
+                    "early{slice::is_empty(P0.segments)=>return v1::None}Some(T[#( #0 )::*](Iterator::map(P0.segments,|1|{Result::expect(syn::parse_str(C1_0))})))",
                     "a registry path converts to the syn path with the same segments in order; empty paths convert to None")
     else:
         ctx.bad("C11.6", "missing-anchor/syn_path", "", "TryIntoSynPath for &scale_info::Path not found")
